@@ -3,6 +3,7 @@ package props
 import (
 	"bytes"
 	"fmt"
+	"math/big"
 	"net/http"
 	"net/http/httptest"
 	"os"
@@ -29,6 +30,9 @@ type c09One struct {
 	Script      mux.Script `json:"script"`
 	Entry       string     `json:"entry"`        // index | media
 	AttachAfter int        `json:"attach_after"` // completed segments before the client starts
+	// PaceNS: when op i is written, in ns after the first one (media time; the NTP values passed to
+	// the muxer may be stepped and are not used for pacing). Absent in old replay files.
+	PaceNS []int64 `json:"pace_ns,omitempty"`
 }
 
 type c09Scenario struct {
@@ -132,6 +136,28 @@ func drawC09One(t *rapid.T) c09One {
 	ntpBase := int64(1_577_836_800_000_000_000)
 	var all [][]mux.Op
 	var medias [][]float64
+	// the wall clock all tracks take their NTP from is stepped 0-2 times (most runs: never), at
+	// media times in the second half of the run: NTP is then not linear in the time stamps
+	type ntpJump struct {
+		at float64
+		d  int64
+	}
+	var jumps []ntpJump
+	for k := rapid.SampledFrom([]int{0, 0, 0, 1, 1, 2}).Draw(t, "ntpJumps"); k > 0; k-- {
+		jumps = append(jumps, ntpJump{
+			at: total * float64(rapid.IntRange(45, 95).Draw(t, "ntpJumpAt")) / 100,
+			d:  int64(rapid.SampledFrom([]int{-300, -40, 25, 120, 500, 800}).Draw(t, "ntpJumpMs")) * 1_000_000,
+		})
+	}
+	ntpShift := func(m float64) int64 {
+		var sh int64
+		for _, j := range jumps {
+			if m >= j.at {
+				sh += j.d
+			}
+		}
+		return sh
+	}
 	for ti, spec := range cfg.Tracks {
 		rate := int64(spec.ClockRate())
 		var ops []mux.Op
@@ -154,7 +180,7 @@ func drawC09One(t *rapid.T) c09One {
 					op.Kind = mux.KindInter
 				}
 				m := float64(ts-start) / float64(rate)
-				op.NTP = ntpBase + (ts-start)*1_000_000_000/rate
+				op.NTP = ntpBase + ntpShift(m) + (ts-start)*1_000_000_000/rate
 				ops = append(ops, op)
 				med = append(med, m)
 				ts += frame
@@ -176,7 +202,7 @@ func drawC09One(t *rapid.T) c09One {
 				if variant != mux.VariantMPEGTS || true {
 					op.N = rapid.SampledFrom([]int{1, 1, 2}).Draw(t, "n")
 				}
-				op.NTP = ntpBase + (ts-base)*1_000_000_000/rate
+				op.NTP = ntpBase + ntpShift(m) + (ts-base)*1_000_000_000/rate
 				ops = append(ops, op)
 				med = append(med, m)
 				ts += per * int64(op.N)
@@ -198,8 +224,11 @@ func drawC09One(t *rapid.T) c09One {
 			break
 		}
 		one.Script.Ops = append(one.Script.Ops, all[pick][idx[pick]])
+		one.PaceNS = append(one.PaceNS, int64(medias[pick][idx[pick]]*1e9))
 		idx[pick]++
 	}
+	// no boundary decision within 1 ns of SegmentMinDuration (frames are whole fractions of a second)
+	cfg.SegmentMinDuration -= 1_000_000
 	one.Script.Config = cfg
 	one.Entry = rapid.SampledFrom([]string{"index", "index", "media"}).Draw(t, "entry")
 	return one
@@ -241,7 +270,12 @@ type c09Result struct {
 	delivered int
 	labels    []string
 	segs      int
+	excluded  int // AbsoluteTime comparisons left out because of open finding F21
+	absChecks int
 }
+
+// c09NoExclusions: the regression of known finding F21 runs without its exclusion.
+var c09NoExclusions = false
 
 func runC09One(one c09One) c09Result {
 	var res c09Result
@@ -254,6 +288,7 @@ func runC09One(one c09One) c09Result {
 	model := mux.NewModel(cfg)
 	var completed atomic.Int64
 	var writeErr atomic.Value
+	var ambiguous atomic.Bool
 	writerDone := make(chan struct{})
 	stopWriter := make(chan struct{})
 	var modelMu sync.Mutex
@@ -263,6 +298,9 @@ func runC09One(one c09One) c09Result {
 		first := one.Script.Ops[0].NTP
 		for i, op := range one.Script.Ops {
 			due := t0.Add(time.Duration(op.NTP - first))
+			if len(one.PaceNS) == len(one.Script.Ops) {
+				due = t0.Add(time.Duration(one.PaceNS[i] - one.PaceNS[0]))
+			}
 			if d := time.Until(due); d > 0 {
 				select {
 				case <-time.After(d):
@@ -271,7 +309,9 @@ func runC09One(one c09One) c09Result {
 				}
 			}
 			modelMu.Lock()
-			model.Step(i, op)
+			if st := model.Step(i, op); st.Ambiguous {
+				ambiguous.Store(true)
+			}
 			n := len(model.Segs)
 			modelMu.Unlock()
 			if err := drv.Write(i, op); err != nil {
@@ -313,6 +353,11 @@ func runC09One(one c09One) c09Result {
 	drv.Close()
 	if e, ok := writeErr.Load().(string); ok {
 		res.violation = "harness: write failed: " + e
+		return res
+	}
+	if ambiguous.Load() {
+		// a boundary decision within 1 ns of SegmentMinDuration: the model's segments are not decided
+		res.labels = append(res.labels, "skipped:ambiguous-boundary")
 		return res
 	}
 	res.labels = append(res.labels, fmt.Sprintf("variant=%d", cfg.Variant), "entry:"+one.Entry)
@@ -368,12 +413,36 @@ func runC09One(one c09One) c09Result {
 	if model.Open != nil {
 		segs = append(segs, model.Open)
 	}
+	segOf := make([][]*mux.MSeg, len(cfg.Tracks)) // the segment each unit belongs to
 	for _, sg := range segs {
 		for ti := range cfg.Tracks {
 			units[ti] = append(units[ti], sg.Units[ti]...)
+			for range sg.Units[ti] {
+				segOf[ti] = append(segOf[ti], sg)
+			}
 		}
 	}
 	res.segs = len(model.Segs)
+	// stepUpTo[sg]: the written NTP of sg, of an earlier segment or of the next one is not the
+	// previous segment's NTP plus its duration (the wall clock was stepped)
+	stepUpTo := map[*mux.MSeg]bool{}
+	{
+		nonLinear := make([]bool, len(segs))
+		for k := 1; k < len(segs); k++ {
+			p, q := segs[k-1], segs[k]
+			dur := new(big.Rat).Mul(big.NewRat(q.StartTicks-p.StartTicks, p.Rate), big.NewRat(1_000_000_000, 1))
+			ns, _ := new(big.Float).SetRat(dur).Int64()
+			gap := q.NTP.Sub(p.NTP.Add(time.Duration(ns)))
+			nonLinear[k] = gap < -2*time.Millisecond || gap > 2*time.Millisecond
+		}
+		seen := false
+		for k := range segs {
+			if nonLinear[k] || (k+1 < len(segs) && nonLinear[k+1]) {
+				seen = true
+			}
+			stepUpTo[segs[k]] = seen
+		}
+	}
 	var originLead int64 = -1
 	leadRate := int64(cfg.Tracks[lead].ClockRate())
 	for ci, ti := range order {
@@ -494,9 +563,25 @@ func runC09One(one c09One) c09Result {
 				return res
 			}
 			if g.AbsOK {
-				d := g.Abs.Sub(w.NTP)
+				// NTP written with the first unit of the unit's segment + DTS distance between the two
+				sg := segOf[ti][found]
+				if core.Open("F21") && !c09NoExclusions && stepUpTo[sg] && (cfg.Variant == mux.VariantLL || ti != lead) {
+					// open finding F21: once the written NTP has been stepped, only the leading track of
+					// the non-Low-Latency variants is anchored on the unit's own segment
+					res.excluded++
+					res.delivered++
+					continue
+				}
+				res.absChecks++
+				dist := big.NewRat(w.DTS, int64(spec.ClockRate()))
+				dist.Sub(dist, big.NewRat(sg.StartTicks, sg.Rate))
+				dist.Mul(dist, big.NewRat(1_000_000_000, 1))
+				ns, _ := new(big.Float).SetRat(dist).Int64()
+				want := sg.NTP.Add(time.Duration(ns))
+				d := g.Abs.Sub(want)
 				if d < -3*time.Millisecond || d > 3*time.Millisecond {
-					res.violation = fmt.Sprintf("track %d (%s): unit written with NTP %s has AbsoluteTime %s", ci, spec.Codec, w.NTP.Format(time.RFC3339Nano), g.Abs.Format(time.RFC3339Nano))
+					res.violation = fmt.Sprintf("track %d (%s): unit written with NTP %s in segment %d (first unit written with NTP %s, %v earlier in decode time) has AbsoluteTime %s, expected %s", ci, spec.Codec,
+						w.NTP.Format(time.RFC3339Nano), sg.ID, sg.NTP.Format(time.RFC3339Nano), time.Duration(ns), g.Abs.Format(time.RFC3339Nano), want.Format(time.RFC3339Nano))
 					return res
 				}
 			}
@@ -525,6 +610,8 @@ func execC09(sc c09Scenario) core.Outcome {
 		if r.violation != "" && o.Violation == "" {
 			o.Violation = fmt.Sprintf("run %d: %s", i, r.violation)
 		}
+		o.Excluded += r.excluded
+		core.AddExtra("C09", "absolute_time_comparisons", r.absChecks)
 		core.AddExtra("C09", "muxer_client_runs", 1)
 		core.AddExtra("C09", "units_delivered_and_matched", r.delivered)
 	}
@@ -560,4 +647,36 @@ func codecParamDiff(want, got codecs.Codec) string {
 		return fmt.Sprintf("%+v != %+v", got, want)
 	}
 	return ""
+}
+
+// TestKnownF21 reproduces open finding F21: a Low-Latency stream whose written NTP is stepped by
+// +500 ms at a segment boundary; the units of that segment, delivered from parts while it is open,
+// get an AbsoluteTime extrapolated from the previous segment.
+func TestKnownF21(t *testing.T) {
+	cfg := mux.Config{Variant: mux.VariantLL, Tracks: []mux.TrackSpec{{Codec: "h264"}}, SegmentCount: 7, SegmentMinDuration: 599e6, PartMinDuration: 100e6}
+	one := c09One{Entry: "media", AttachAfter: 3}
+	const frame = 3600 // 25 fps
+	base := int64(1_577_836_800_000_000_000)
+	for k := 0; k < 21*7; k++ {
+		op := mux.Op{Track: 0, TS: int64(k) * frame, Size: 12, Kind: mux.KindInter}
+		if k%7 == 0 {
+			op.Kind = mux.KindRA
+			op.InBand = 1
+		}
+		op.NTP = base + int64(k)*40_000_000
+		if k >= 21*5 {
+			op.NTP += 500_000_000 // the clock is stepped at the start of the sixth segment
+		}
+		one.Script.Ops = append(one.Script.Ops, op)
+		one.PaceNS = append(one.PaceNS, int64(k)*40_000_000)
+	}
+	one.Script.Config = cfg
+	c09NoExclusions = true
+	defer func() { c09NoExclusions = false }()
+	r := runC09One(one)
+	if strings.Contains(r.violation, "has AbsoluteTime") {
+		fmt.Println("STILL-REPRODUCES F21:", r.violation)
+		return
+	}
+	fmt.Printf("F21 does not reproduce: violation=%q delivered=%d\n", r.violation, r.delivered)
 }
